@@ -118,13 +118,22 @@ func (in *inliner) preNormalise(cands map[types.Object]*inlCallee) bool {
 			switch st := s.(type) {
 			case *ast.ForStmt:
 				if st.Cond != nil && len(findNested(st.Cond, false)) > 0 {
-					guard := &ast.IfStmt{Cond: &ast.UnaryExpr{Op: token.NOT, X: &ast.ParenExpr{X: st.Cond}}, Body: &ast.BlockStmt{List: []ast.Stmt{&ast.BranchStmt{Tok: token.BREAK}}}}
+					// a labelled break can be threaded into the helper's body even where that sits inside a select / switch
+					in.seq++
+					lbl := fmt.Sprintf("zzloop%d", in.seq)
+					var negated ast.Expr = &ast.UnaryExpr{Op: token.NOT, X: &ast.ParenExpr{X: st.Cond}}
+					if _, isCall := st.Cond.(*ast.CallExpr); isCall {
+						negated = &ast.UnaryExpr{Op: token.NOT, X: st.Cond}
+					}
+					guard := &ast.IfStmt{Cond: negated, Body: &ast.BlockStmt{List: []ast.Stmt{&ast.BranchStmt{Tok: token.BREAK, Label: ast.NewIdent(lbl)}}}}
 					if u, isNeg := isNot(st.Cond); isNeg {
 						guard.Cond = u
 					}
 					st.Cond = nil
 					st.Body.List = append([]ast.Stmt{guard}, st.Body.List...)
 					did = true
+					out = append(out, &ast.LabeledStmt{Label: ast.NewIdent(lbl), Stmt: st})
+					continue
 				}
 			case *ast.GoStmt:
 				if isCand(st.Call) {
@@ -241,6 +250,13 @@ func (in *inliner) preNormalise(cands map[types.Object]*inlCallee) bool {
 			case *ast.IfStmt:
 				if st.Init == nil {
 					cond, _ := isNot(st.Cond)
+					for {
+						pe, isP := cond.(*ast.ParenExpr)
+						if !isP {
+							break
+						}
+						cond = pe.X
+					}
 					if ce, ok := cond.(*ast.CallExpr); ok && isCand(ce) {
 						break
 					}
